@@ -172,6 +172,11 @@ def run_falsifier(ctx, check_types):
             inputs = [("Root", [_gen.gen_name_clash(rng)])]
             job["omitDefaults"] = rng.random() < 0.6
             job["convertUnicode"] = True if job["omitDefaults"] else rng.random() < 0.7
+        if i >= len(focus) and i % 12 == 9:
+            # the literal limit left at its default through the API: 10..15 distinct short strings are `str`, fewer a Literal
+            k = rng.choice([9, 10, 12, 15])
+            inputs = [("Root", [{"month": "m%02d" % j, "size": "s%d" % (j % 3), "n": j} for j in range(k)])]
+            job.update({"fw": rng.choice(["pydantic", "sqlmodel", "dataclasses", "base"]), "maxLit": 10, "omitDefaults": True})
         if i >= len(focus) and i % 12 == 6:
             # keys that only sanitise to the primary-key names sqlmodel keeps as they are: the original key must stay attached
             k1, k2 = rng.choice(["PK", "Pk", "pk.", "p-k", "pK"]), rng.choice(["ID", "Id", "id-", "i.d", "iD"])
